@@ -448,3 +448,183 @@ Qed.
 Definition heap_extends (h h' : heap) : Prop :=
   (hnext h <= hnext h')%positive /\
   forall l, (l < hnext h)%positive -> PositiveMap.find l (hcells h') = PositiveMap.find l (hcells h).
+
+Lemma heap_extends_refl h : heap_extends h h.
+Proof. split; [apply Pos.le_refl|auto]. Qed.
+Lemma heap_extends_trans a b c : heap_extends a b -> heap_extends b c -> heap_extends a c.
+Proof.
+  intros [L1 F1] [L2 F2]. split; [eapply Pos.le_trans; eauto|].
+  intros l Hl. rewrite F2 by lia. apply F1. exact Hl.
+Qed.
+
+Lemma halloc_extends c h l h' : halloc c h = (l, h') -> heap_extends h h'.
+Proof.
+  unfold halloc. intro H. inversion H; subst. split; simpl; [lia|].
+  intros l0 Hl. apply PositiveMap.gso. lia.
+Qed.
+
+Lemma halloc_extends' c h :
+  heap_extends h {| hnext := Pos.succ (hnext h); hcells := PositiveMap.add (hnext h) c (hcells h) |}.
+Proof. eapply (halloc_extends c h). reflexivity. Qed.
+
+Lemma copy_els_extends cp :
+  (forall v h v' h', cp v h = Some (v', h') -> heap_extends h h') ->
+  forall els h r h', copy_els cp els h = Some (r, h') -> heap_extends h h'.
+Proof.
+  intros Hcp. induction els as [|x t IH]; simpl; intros h r h' H.
+  - inversion H. apply heap_extends_refl.
+  - destruct (cp x h) as [[x' h1]|] eqn:E1; [|discriminate].
+    destruct (copy_els cp t h1) as [[t' h2]|] eqn:E2; [|discriminate]. inversion H; subst.
+    eapply heap_extends_trans; [eapply Hcp; eauto|eapply IH; eauto].
+Qed.
+
+Lemma copy_pairs_extends cp :
+  (forall v h v' h', cp v h = Some (v', h') -> heap_extends h h') ->
+  forall m h r h', copy_pairs cp m h = Some (r, h') -> heap_extends h h'.
+Proof.
+  intros Hcp. induction m as [|[k x] t IH]; simpl; intros h r h' H.
+  - inversion H. apply heap_extends_refl.
+  - destruct (cp x h) as [[x' h1]|] eqn:E1; [|discriminate].
+    destruct (copy_pairs cp t h1) as [[t' h2]|] eqn:E2; [|discriminate]. inversion H; subst.
+    eapply heap_extends_trans; [eapply Hcp; eauto|eapply IH; eauto].
+Qed.
+
+Lemma hcopy_extends : forall fuel v h v' h', hcopy fuel v h = Some (v', h') -> heap_extends h h'.
+Proof.
+  induction fuel as [|fuel IH]; intros v h v' h' H; simpl in H; [discriminate|].
+  destruct v; try (inversion H; subst; apply heap_extends_refl).
+  - destruct (copy_els (hcopy fuel) (arr_at h l) h) as [[els' h1]|] eqn:E; [|discriminate].
+    unfold halloc in H. inversion H; subst.
+    eapply heap_extends_trans; [eapply copy_els_extends; [exact IH|exact E]|apply halloc_extends'].
+  - destruct (copy_pairs (hcopy fuel) (map_at h l) h) as [[m' h1]|] eqn:E; [|discriminate].
+    unfold halloc in H. inversion H; subst.
+    eapply heap_extends_trans; [eapply copy_pairs_extends; [exact IH|exact E]|apply halloc_extends'].
+Qed.
+
+Lemma hrepeat_extends fuel els : forall n h r h', hrepeat fuel n els h = Some (r, h') -> heap_extends h h'.
+Proof.
+  induction n as [|n IH]; simpl; intros h r h' H.
+  - inversion H. apply heap_extends_refl.
+  - destruct (hcopy_list fuel els h) as [[c h1]|] eqn:E1; [|discriminate].
+    destruct (hrepeat fuel n els h1) as [[r2 h2]|] eqn:E2; [|discriminate]. inversion H; subst.
+    eapply heap_extends_trans; [|eapply IH; eauto].
+    unfold hcopy_list in E1. eapply copy_els_extends; [apply hcopy_extends|exact E1].
+Qed.
+
+Lemma harr_repeat_extends r l h v h' : harr_repeat r l h = ROk v h' -> heap_extends h h'.
+Proof.
+  unfold harr_repeat, halloc. destruct (go_int_exact r) as [n|]; [|discriminate]. destruct (n <? 0)%Z; [discriminate|].
+  destruct (repeat_too_large _ n); [discriminate|].
+  destruct (arr_at h l) as [|x t].
+  - intro H; inversion H; subst. apply halloc_extends'.
+  - destruct (hrepeat _ _ _ _) as [[res h1]|] eqn:ER; [|discriminate].
+    intro H; inversion H; subst.
+    eapply heap_extends_trans; [eapply hrepeat_extends; eauto|apply halloc_extends'].
+Qed.
+
+Lemma hindex_same h a b v h' : hindex h a b = ROk v h' -> h' = h.
+Proof.
+  unfold hindex. intro H.
+  repeat match type of H with
+         | context [match ?x with _ => _ end] => destruct x; try discriminate
+         end; inversion H; reflexivity.
+Qed.
+
+Lemma hslice_extends h a b c v h' : hslice h a b c = ROk v h' -> heap_extends h h'.
+Proof.
+  unfold hslice, halloc. intro H.
+  destruct a; try discriminate;
+    match type of H with context [hslice_bounds ?x ?y ?z] => destruct (hslice_bounds x y z) as [[[?|?] [?|?]]|] end;
+    try discriminate;
+    match type of H with context [if ?c then _ else _] => destruct c end; try discriminate.
+  - inversion H; subst. apply heap_extends_refl.
+  - inversion H; subst. apply halloc_extends'.
+Qed.
+
+Lemma hnum2_same h args f v h' : hnum2 h args f = ROk v h' -> h' = h.
+Proof.
+  unfold hnum2. intro H. destruct args as [|[] [|[] [|]]]; try discriminate.
+  destruct (f f1 f0) as [[]| |]; try discriminate; inversion H; reflexivity.
+Qed.
+Lemma hstr2_same h args f v h' : hstr2 h args f = ROk v h' -> h' = h.
+Proof.
+  unfold hstr2. intro H. destruct args as [|[] [|[] [|]]]; try discriminate. inversion H; reflexivity.
+Qed.
+
+Lemma hpure_sem_extends o arg cs ls gs h args v h' :
+  hpure_sem o arg cs ls gs h args = ROk v h' -> heap_extends h h'.
+Proof.
+  intro H. destruct o; simpl in H; try discriminate;
+    try (apply hnum2_same in H; subst; apply heap_extends_refl);
+    try (apply hstr2_same in H; subst; apply heap_extends_refl);
+    try (inversion H; subst; apply heap_extends_refl; fail).
+  - destruct (nth_error cs (N.to_nat arg)); [|discriminate]. inversion H; subst. apply heap_extends_refl.
+  - destruct (nth_error gs (N.to_nat arg)); [|discriminate]. inversion H; subst. apply heap_extends_refl.
+  - destruct (nth_error ls (N.to_nat arg)); [|discriminate]. inversion H; subst. apply heap_extends_refl.
+  - destruct args as [|[] [|]]; try discriminate. inversion H; subst. apply heap_extends_refl.
+  - destruct args as [|[] [|]]; try discriminate. inversion H; subst. apply heap_extends_refl.
+  - destruct args as [|r [|l [|]]]; try discriminate.
+    destruct (heq_top h l r); try discriminate. inversion H; subst. apply heap_extends_refl.
+  - destruct args as [|r [|l [|]]]; try discriminate.
+    destruct (heq_top h l r); try discriminate. inversion H; subst. apply heap_extends_refl.
+  - unfold halloc in H. inversion H; subst. apply halloc_extends'.
+  - destruct args as [|[] [|[] [|]]]; try discriminate.
+    unfold halloc in H. inversion H; subst. apply halloc_extends'.
+  - destruct args as [|[] [|[] [|]]]; try discriminate. eapply harr_repeat_extends; eauto.
+  - destruct (hmap_pairs args []) as [ps|]; [|discriminate].
+    unfold halloc in H. inversion H; subst. apply halloc_extends'.
+  - destruct args as [|i [|l [|]]]; try discriminate. apply hindex_same in H; subst. apply heap_extends_refl.
+  - destruct args as [|b [|a [|l [|]]]]; try discriminate. eapply hslice_extends; eauto.
+Qed.
+
+Lemma hwith_heap s next stk hp s' : hwith s next stk hp = HRunning s' -> hheap s' = hp.
+Proof. unfold hwith. destruct (StackSize <? _); [discriminate|]. intro H; inversion H; reflexivity. Qed.
+
+(* every instruction other than OpSetIndex only allocates *)
+Lemma hexec_extends s o arg next s' :
+  o <> SetIndex -> hexec s o arg next = HRunning s' -> heap_extends (hheap s) (hheap s').
+Proof.
+  intros NS H. unfold hexec in H.
+  destruct o; try congruence;
+    try (destruct (simple_effect _ arg) as [[pn q]|]; [|discriminate];
+         destruct (List.length (hstack s) <? N.to_nat pn)%nat; [discriminate|]);
+    try (match type of H with
+         | context [hpure_sem ?o ?a ?c ?l ?g ?hp ?x] =>
+             destruct (hpure_sem o a c l g hp x) as [v hp'|e|c0] eqn:EP; try discriminate;
+             apply hwith_heap in H; rewrite H; eapply hpure_sem_extends; exact EP
+         end).
+  - (* SetGlobal *)
+    destruct (firstn (N.to_nat pn) (hstack s)) as [|x [|]]; try discriminate.
+    destruct (set_nth_opt _ _ _); [|discriminate]. inversion H; subst. apply heap_extends_refl.
+  - (* Drop *) inversion H; subst. apply heap_extends_refl.
+  - (* SetLocal *)
+    destruct (firstn (N.to_nat pn) (hstack s)) as [|x [|]]; try discriminate.
+    destruct (set_nth_opt _ _ _); [|discriminate]. inversion H; subst. apply heap_extends_refl.
+  - (* Jump *) inversion H; subst. apply heap_extends_refl.
+  - (* JumpOnFalse *)
+    destruct (hstack s) as [|[] rest]; try discriminate. inversion H; subst. apply heap_extends_refl.
+  - (* StepRange *)
+    destruct (List.length (hstack s) <? 3)%nat; [discriminate|]. destruct (hzero_step _); [discriminate|].
+    destruct (hstep_range _ _); [|discriminate]. apply hwith_heap in H. rewrite H. apply heap_extends_refl.
+  - (* IterRange *)
+    destruct (List.length (hstack s) <? 2)%nat; [discriminate|].
+    destruct (hiter_range _ _ _); [|discriminate]. apply hwith_heap in H. rewrite H. apply heap_extends_refl.
+Qed.
+
+(* the code of p has no OpSetIndex opcode byte at an instruction the VM fetches:
+   stated on the fetch, as hvm_step performs it *)
+Definition fetches_setindex (p : program) (s : hstate) : Prop :=
+  exists b rest, skipn (N.to_nat (hip s)) (pcode p) = b :: rest /\ opc_of_N b = Some SetIndex.
+
+Theorem hvm_step_allocates_only : forall p s s',
+  hvm_step p s = HRunning s' -> ~ fetches_setindex p s -> heap_extends (hheap s) (hheap s').
+Proof.
+  intros p s s' H NS. unfold hvm_step in H.
+  destruct (skipn (N.to_nat (hip s)) (pcode p)) as [|b rest] eqn:EF; [discriminate|].
+  destruct (opc_of_N b) as [o|] eqn:EO.
+  - assert (No : o <> SetIndex) by (intro; subst o; apply NS; exists b, rest; split; [exact EF|exact EO]).
+    destruct (vm_has_operand o).
+    + destruct rest as [|hi [|lo rest']]; try discriminate. eapply hexec_extends; eauto.
+    + eapply hexec_extends; eauto.
+  - inversion H; subst. apply heap_extends_refl.
+Qed.
